@@ -225,6 +225,13 @@ func summariseBody(body *ast.BlockStmt) (secure string, actions, calls []string)
 	ast.Inspect(body, func(n ast.Node) bool {
 		if c, ok := n.(*ast.CallExpr); ok {
 			name := src18(c.Fun)
+			// the same dial with an explicit dialer / timeout is the same transport decision
+			switch name {
+			case "tls.DialWithDialer":
+				name = "tls.Dial"
+			case "net.DialTimeout":
+				name = "net.Dial"
+			}
 			for _, w := range watchCalls {
 				if name == w || strings.HasSuffix(name, "."+w) && (w == "ServeTLS" || w == "Serve") {
 					calls = append(calls, w)
